@@ -54,8 +54,13 @@ def gen_route(rng, i, tier):
     doc = gen.tree(rng, 2, 3, nulls=False, root='map', pool=['x', 1, 1.5, True, 'true', '1'])
     doc['id'] = i
     real = rng.choice(['json', 'yaml', 'toml', 'yml', 'jsonl'])
-    return {'kind': 'route', 'docs': [doc], 'real': real, 'named': rng.choice(EXTS + [real, real]), 'flag': rng.choice(FLAGF + [None, None]),
-            'out': rng.choice(EXTS + [None, None, None]), 'lib': rng.random() < 0.3}
+    c = {'kind': 'route', 'docs': [doc], 'real': real, 'named': rng.choice(EXTS + [real, real]), 'flag': rng.choice(FLAGF + [None, None]),
+         'out': rng.choice(EXTS + [None, None, None]), 'lib': rng.random() < 0.3}
+    if not c["lib"] and rng.random() < 0.3:
+        # the input comes from standard input, named -.<ext>: that extension is the first input's extension
+        c['named'] = real
+        c['stdin'] = True
+    return c
 
 
 def fixed_cases(tier):
@@ -226,11 +231,19 @@ def check_route(ctx, case):
             if rr.random() < 0.4:
                 with open(os.path.join(d, oname), 'w') as f:     # an existing, longer file must be replaced completely
                     f.write('stale content that is longer than any output ' * 40)
-        parts.append([rr.choice(['in.' + named, './in.' + named])])
-        if rr.random() < 0.3:
-            rr.shuffle(parts)
-        for p_ in parts:
-            argv += p_
+        stdin_data = b''
+        if case.get('stdin'):
+            stdin_data = open(inpath, 'rb').read()
+            for p_ in parts:
+                argv += p_
+            argv += ['--', '-.' + named]
+            res.labels.add('route:+stdin')
+        else:
+            parts.append([rr.choice(['in.' + named, './in.' + named])])
+            if rr.random() < 0.3:
+                rr.shuffle(parts)
+            for p_ in parts:
+                argv += p_
         dbg = rr.random()
         env = None
         if dbg < 0.1:
@@ -240,7 +253,7 @@ def check_route(ctx, case):
             from ..core import scrub_env
             env = scrub_env({'BKL_DEBUG': '1'})
             res.labels.add('route:+BKL_DEBUG')
-        r = cli(argv, cwd=d, env=env)
+        r = cli(argv, cwd=d, env=env, stdin=stdin_data)
         res.execs += 1
         if r.rc != 0:
             ctx.cleanup_case(d)
